@@ -1,6 +1,6 @@
 (* C14 -- cyclic models are rejected, never silently skipped. *)
 From Coq Require Import List Arith Bool.
-From MP Require Import Model.Sched Proofs.SchedProofs Proofs.SchedTop.
+From MP Require Import Model.Sched Proofs.SchedProofs Proofs.SchedTop Proofs.SchedBlame.
 Import ListNotations.
 
 (* any graph size (the property asks for <= 5), self-loops, cycles with tails, separate acyclic components,
@@ -19,6 +19,12 @@ Proof. exact no_partial_success. Qed.
 Theorem C14_only_cycles_rejected : forall P rank, wf_dag P rank -> find_cycle P = None.
 Proof. exact acyclic_accepted. Qed.
 
+(* the command the error names is one of the program's own commands, in every file order and graph size *)
+Theorem C14_names_a_command : forall (V : Type) (F : cmd -> list V -> V) P fuel s n,
+  find_cycle P = Some n -> first_missing P P = None ->
+  run_program F fuel P s = ErrRecursive n /\ In n (names P).
+Proof. intros V F P fuel s n H M. split; [unfold run_program; rewrite M, H; reflexivity | exact (reported_is_a_command P n H)]. Qed.
+
 Example C14_example :
   let P := [ {| nm := 0; rl := [(true, 1)] |}; {| nm := 1; rl := [(false, 2)] |}; {| nm := 2; rl := [(true, 1)] |};
              {| nm := 3; rl := [] |} ] in
@@ -29,3 +35,4 @@ Proof. split; [exists 1, [2]; simpl; split; [exists {| nm := 1; rl := [(false, 2
 Print Assumptions C14.
 Print Assumptions C14_no_partial_success.
 Print Assumptions C14_only_cycles_rejected.
+Print Assumptions C14_names_a_command.
